@@ -126,6 +126,11 @@ def run(pid, tier, seed):
                     rep.violation("total-bytes", "Printed bytes %s, stdout has %d bytes" % (tot["bytes"], len(r1.out)), rec)
             kinds = kinds_of[si]
             per_kind = {"text": 0, "record": 0, "event": 0, "entry": 0}
+            unknown_w = [e["w"] for e in prints if e["w"] not in kinds]
+            if unknown_w:
+                # the source numbering is not the one this driver assumes (path order): per-kind totals not checkable
+                rep.note_drift("Print events name sources %s, the driver knows %s" % (sorted(set(unknown_w)), sorted(kinds)))
+                continue
             for e in prints:
                 per_kind[kinds[e["w"]]] += 1
             for key, kk in (("syslines", "text"), ("fixedstruct", "record"), ("evtx events", "event"), ("journal events", "entry")):
